@@ -94,7 +94,7 @@ CHECKS["C18"] = dict(
 CHECKS["C08"] = dict(
     engine="E1-config-lattice",
     technique="full product of per-point boundary alphabets evaluated through the real (pointwise) eval_xc_cider for every state of the configuration lattice; generators and integrators on densities with exact zeros / denormals",
-    text="Because eval_xc_cider is pointwise in the grid index, one call on an array holding the full product of per-point alphabets (16 density values incl. 0, denormal, both sides of every cutoff 1e-10 / rhocut/2 / rhocut, 1e6; zero, tiny, von-Weizsaecker-consistent and huge gradients; tau from tau_W to 1e10 tau_ueg; nonlocal slots 0 / UEG value / huge / negative; for nspin=2 every point paired with itself, a typical point and zero) decides all of them; this is repeated for the full products semilocal mode x baseline (native and libxc) x spin mode x nspin, family x evaluator x normalisation x nspin, family x mode x mix x rho_mult. Every output must be finite and, with no semilocal part, points well below the cutoff must have exactly zero energy density and potentials. NLDF and SDMX generators are run on real grids with zero / denormal / step densities and far or coincident points, and nr_rks/nr_uks on atoms with grids reaching hundreds of Bohr.",
+    text="Because eval_xc_cider is pointwise in the grid index, one call on an array holding the full product of per-point alphabets (16 density values incl. 0, denormal, both sides of every cutoff 1e-10 / rhocut/2 / rhocut, 1e6; zero, tiny, von-Weizsaecker-consistent and huge gradients; tau from tau_W to 1e10 tau_ueg; nonlocal slots 0 / UEG value / huge / negative; for nspin=2 every point paired with itself, a typical point and zero) decides all of them; this is repeated for the full products semilocal mode x baseline (native and libxc) x spin mode x nspin, family x evaluator x normalisation x nspin, family x mode x mix x rho_mult. Every output must be finite and, with no semilocal part, points well below the cutoff must have exactly zero energy density and potentials; for spin-separable (SEP) models and nspin=2 this is also required per channel (where 2 rho_s is well below the cutoff, every derivative with respect to channel s is exactly zero, whatever the other channel holds). NLDF and SDMX generators are run on real grids with zero / denormal / step densities and far or coincident points, and nr_rks/nr_uks on atoms with grids reaching hundreds of Bohr.",
     note="Admissible inputs only (rho>=0, tau>=tau_W); exact-zero clause asserted below 0.2*rhocut; a libxc additive baseline is semilocal, not ML energy.",
     design="5/C08",
 )
@@ -109,7 +109,7 @@ CHECKS["C06"] = dict(
 CHECKS["C13"] = dict(
     engine="E1-config-lattice",
     technique="enumeration of settings classes x spec/parameter/rho_mult/level alphabets x density values against independent quadrature of the documented definitions",
-    text="For every NLDF spec of versions j, i, ij, k (incl. erf_rinv and the vector dots), both semilocal levels, both rho_mult options and two parameter sets, every SDMX settings class and every semilocal mode, the reported uniform-gas value at five densities is compared with an independent evaluation of the documented definition (1-D radial quadrature of the kernels of docs/features/nldf.rst with my own transcription of the exponent formula; nested Gauss-Legendre quadrature of the documented SDMX integrals for the uniform-gas density matrix; the real semilocal plan on constant arrays); the values must also obey their declared scaling powers; FeatureSettings.ueg_vector(with_normalizers=True) must equal the raw vector pushed through the real normaliser list, and the list's reported factors must equal what the forward pass applies, for every normaliser class and semilocal mode.",
+    text="For every NLDF spec of versions j, i, ij, k (incl. erf_rinv and the vector dots), both semilocal levels, both rho_mult options and two parameter sets, every SDMX settings class, fractional-Laplacian settings (exponents at and on both sides of every special value of the closed form, every feature group present/absent; Fermi-sphere quadrature of the documented operators incl. the F^dd dot features, isotropy for the vector contractions) and every semilocal mode, the reported uniform-gas value at five densities is compared with an independent evaluation of the documented definition (1-D radial quadrature of the kernels of docs/features/nldf.rst with my own transcription of the exponent formula; nested Gauss-Legendre quadrature of the documented SDMX integrals for the uniform-gas density matrix; the real semilocal plan on constant arrays); the values must also obey their declared scaling powers; FeatureSettings.ueg_vector(with_normalizers=True) must equal the raw vector pushed through the real normaliser list, and the list's reported factors must equal what the forward pass applies, for every normaliser class and semilocal mode.",
     note="Density alphabet {0.01,0.3,1,7,100}; SDMX constants compared at 2e-4 (tabulated constants are accurate to 4e-5 for j=2).",
     design="5/C13",
 )
@@ -118,7 +118,7 @@ CHECKS["C15"] = dict(
     engine="E1-config-lattice",
     technique="enumeration of kernel expression trees (leaf class x hyper-parameter alphabet x binary/unary compositions) with symmetry, diag, PSD, composition-algebra, spin-exchange and Richardson-gradient oracles",
     text="Every kernel class of models/kernels.py (RBF iso/aniso/fixed, antisymmetric RBF, linear, polynomial orders 1-4 with and without factorial and anisotropic gamma, additive kernels of orders 1-4 incl. fixed scale/length scale, ARBF-V2, additive linear-times-RBF, additive rational quadratic, partial/single/quadratic variants, constant, white and density-noise kernels, subset kernels with list/slice/stepped indices, spin-symmetrised kernels) with hyper-parameters at low/mid/high values is enumerated as a leaf, in every + and x composition of a basic pool (all leaves in thorough; depth 3 there), under integer powers, constants, linear transforms, active-dimension and spin-symmetrising wrappers; each tree must satisfy k(X,Y)=k(Y,X)^T, diag=diag k(X,X), positive semi-definiteness, the algebra of its composition, spin-block exchange symmetry, theta-gradients equal to Richardson differences in log-theta with exactly the non-fixed parameters on the last axis, k_and_deriv equal to differences in X, the caller's sample arrays unchanged after every evaluation, and k(X, X) with the same array on both sides equal to k(X); the linear transform wrapper is enumerated in every presence pattern of its optional arguments. DFT-level kernel (dft_kernel.DFTKernel): for SEP / NPOL / POL x nspin x four component kernels x control-point reduction on/off, get_kctrl, get_k and get_k_and_deriv against an own evaluation of the documented definition (polarised kernel k_aa k_bb + k_ab k_ba) and Richardson differences.",
-    note="Fixed sample matrices with coincident and far-apart rows; trees to depth 2 (quick) / 3 (thorough). Four legacy-class defects are listed in known_findings.json.",
+    note="Fixed sample matrices with coincident rows, a far row (kernel values 1e-40), a row 90 length scales away (exactly 0) and the zero vector; non-finite gradients fail; comparisons element-wise relative; trees to depth 2 (quick) / 3 (thorough). Four legacy-class defects are listed in known_findings.json.",
     design="5/C15",
 )
 
